@@ -61,8 +61,14 @@ impl Project {
 
 /// a project whose rule (and utilities) are built around concrete nodes of the document
 pub fn gen_witnessed_project(rng: &mut Rng, lang: SupportLang, nodes: &[N], depth: usize, allow_vars: bool) -> Project {
+  gen_witnessed_project_at(rng, lang, nodes, depth, allow_vars).0
+}
+
+/// also returns the index (in `nodes`) of the node the rule was built around
+pub fn gen_witnessed_project_at(rng: &mut Rng, lang: SupportLang, nodes: &[N], depth: usize, allow_vars: bool) -> (Project, usize) {
   let mut counter = 0usize;
-  let n = rng.pick(nodes).clone();
+  let ni = rng.below(nodes.len());
+  let n = nodes[ni].clone();
   let mut utils: Vec<(String, RObj)> = vec![];
   if rng.chance(1, 3) {
     // a utility witnessed by the same node or a neighbour
@@ -71,7 +77,7 @@ pub fn gen_witnessed_project(rng: &mut Rng, lang: SupportLang, nodes: &[N], dept
   }
   let unames: Vec<String> = utils.iter().map(|u| u.0.clone()).collect();
   let rule = gen_witnessed(rng, lang, &n, depth, &mut counter, allow_vars, &unames);
-  Project { rule, utils, constraints: vec![] }
+  (Project { rule, utils, constraints: vec![] }, ni)
 }
 
 /// A relational rule that has to RETRY: `{pattern: $Q0, kind: K, <rel>: {pattern: P2, stopBy: end}}` where P2 is
@@ -127,6 +133,39 @@ pub fn gen_retry_project(rng: &mut Rng, nodes: &[N]) -> Option<(Project, (usize,
       };
       return Some((Project { rule, utils: vec![], constraints: vec![] }, (n.range().start, n.range().end, n.kind_id()), (c2.range().start, c2.range().end, c2.kind_id()), p2text));
     }
+  }
+  None
+}
+
+/// `has` restricted to a field whose child itself satisfies the stop rule while the wanted node lies below it:
+/// `{kind: K(n), has: {field: F, stopBy: {kind: K(c0)}, kind: K(d)}}` for a field child c0 of n and a descendant d
+/// of c0 of another kind.  The stop rule is inclusive: the search ends AT c0.  Returns the project and n's index.
+pub fn gen_field_stop_project(rng: &mut Rng, nodes: &[N]) -> Option<(Project, usize)> {
+  for _ in 0..60 {
+    let ni = rng.below(nodes.len());
+    let n = nodes[ni].clone();
+    if !n.is_named() {
+      continue;
+    }
+    let kids: Vec<N> = n.children().filter(|c| c.is_named() && c.children().next().is_some()).collect();
+    if kids.is_empty() {
+      continue;
+    }
+    let c0 = rng.pick(&kids).clone();
+    let Some(f) = field_of_child(&n, &c0) else { continue };
+    let below: Vec<N> = c0.dfs().skip(1).filter(|d| d.is_named() && d.kind_id() != c0.kind_id()).take(40).collect();
+    if below.is_empty() {
+      continue;
+    }
+    let d = rng.pick(&below).clone();
+    let stop = match rng.below(3) {
+      0 => RObj::one(RKey::Kind(c0.kind().to_string())),
+      1 => RObj::one(RKey::Any(vec![RObj::one(RKey::Kind(c0.kind().to_string())), RObj::one(RKey::Regex("^\\s*$".into()))])),
+      _ => RObj::one(RKey::Not(Box::new(RObj::one(RKey::Not(Box::new(RObj::one(RKey::Kind(c0.kind().to_string())))))))),
+    };
+    let rel = Box::new(Rel { rule: RObj::one(RKey::Kind(d.kind().to_string())), stop: Stop::Rule(stop), field: Some(f) });
+    let rule = RObj { keys: vec![RKey::Kind(n.kind().to_string()), RKey::Has(rel)] };
+    return Some((Project { rule, utils: vec![], constraints: vec![] }, ni));
   }
   None
 }
@@ -207,15 +246,23 @@ pub fn run_stream(o: &Opts, which: &str) {
       for _ in 0..per_src {
         let shared = which == "c04";
         let wc = shared && rng.chance(1, 3);
+        let mut witness_idx: Option<usize> = None;
         let retry = if shared && rng.chance(1, 4) { gen_retry_project(&mut rng, &dc.nodes) } else { None };
         let mut witness: Option<((usize, usize, u16), (usize, usize, u16), String)> = None;
-        let p = if let Some((p, nr, cr, p2)) = retry {
+        let field_stop = if retry.is_none() && rng.chance(1, 6) { gen_field_stop_project(&mut rng, &dc.nodes) } else { None };
+        let p = if let Some((p, ni)) = field_stop {
+          out.count("gen:field-child-is-the-stop");
+          witness_idx = Some(ni);
+          p
+        } else if let Some((p, nr, cr, p2)) = retry {
           out.count("gen:retry-candidates");
           witness = Some((nr, cr, p2));
           p
         } else if rng.chance(1, 2) {
           out.count("gen:witnessed");
-          gen_witnessed_project(&mut rng, lang, &dc.nodes, if o.thorough { 3 } else { 2 }, shared)
+          let (p, ni) = gen_witnessed_project_at(&mut rng, lang, &dc.nodes, if o.thorough { 3 } else { 2 }, shared);
+          witness_idx = Some(ni);
+          p
         } else {
           out.count("gen:random");
           gen_project(&mut rng, &ing, if o.thorough { 4 } else { 3 }, shared, wc)
@@ -262,7 +309,17 @@ pub fn run_stream(o: &Opts, which: &str) {
         // node sample: all nodes when small, else a seeded sample always including the root
         let mut pick: Vec<usize> = if dc.nodes.len() <= 80 { (0..dc.nodes.len()).collect() } else {
           let mut v = vec![0];
-          for _ in 0..79 { v.push(rng.below(dc.nodes.len())); }
+          // the node the rule was built around, its parent and its first child are always among the nodes tried
+          if let Some(wi) = witness_idx {
+            v.push(wi);
+            let w = &dc.nodes[wi];
+            for other in [w.parent(), w.child(0)].into_iter().flatten() {
+              if let Some(i) = dc.nodes.iter().position(|x| x.node_id() == other.node_id()) {
+                v.push(i);
+              }
+            }
+          }
+          for _ in 0..76 { v.push(rng.below(dc.nodes.len())); }
           v.sort(); v.dedup(); v
         };
         pick.truncate(80);
